@@ -43,11 +43,15 @@ pub fn scenarios(prop: &str) -> Vec<Scenario> {
         let mut v: Vec<Scenario> = Vec::new();
         for fam in ["C06", "C13", "C15"] {
             for mut sc in scenarios(fam) {
+                // a payload without destructor must be among them (needs_drop::<T>() == false paths)
                 sc.pay = match sc.pay {
                     Pay::P4 => Pay::P8,
-                    Pay::Z0 => Pay::P40,
+                    Pay::Z0 => Pay::U64,
                     x => x,
                 };
+                if fam != "C13" && sc.cap == Cap::N(1) && sc.pay == Pay::P16 {
+                    sc.pay = Pay::U128;
+                }
                 v.push(sc);
             }
         }
@@ -193,8 +197,13 @@ pub fn build_case(p: &Profile, sc: &Scenario, i: u32, j: u32) -> Case {
         sched.extend_from_slice(&[255u8, 0u8]);
     }
     if timed {
-        // back to the owner with the clock advanced by 14 ticks: the deadline has passed
-        sched.extend_from_slice(&[0u8, 0xB0u8]);
+        // back to the owner with the clock advanced by 14 ticks, for a long run: it gets through
+        // its remaining spin, finds the deadline passed and tries to cancel while the peer is
+        // still where its j steps left it
+        sched.extend_from_slice(&[0u8, 0xBFu8]);
+    } else if sc.owner.is_async() {
+        // back to the owner for 16 steps: its two yields, then the drop, with the peer frozen
+        sched.extend_from_slice(&[0u8, 9u8]);
     }
     Case {
         cfg,
